@@ -24,7 +24,9 @@ ASSUMPTIONS = [
 RULE = ("exhaustive: every '/'-joined sequence of <= N segments over the alphabet "
         "{'.', '..', '', 'a', '.a', 'a.', '...', 'b'} with and without leading '/', through "
         "normalize_path (N=6 quick, 7 thorough); random longer sequences; distinct = distinct "
-        "request; non-trivial = path contains a dot segment")
+        "request; non-trivial = path contains a dot segment; URL level: every entry point that can put a path under an authority "
+        "(constructor incl. empty-host / userinfo / IPv6 authorities, build, with_path, /, joinpath, with_name, with_suffix, parent, join, random "
+        "programs) with the 'however produced' predicate kinds of c15_url_pred, each case parsed right after its twins")
 
 SEGS = [".", "..", "", "a", ".a", "a.", "...", "b"]
 
